@@ -1041,6 +1041,23 @@ pub fn persist_alphabet(p: &Program) -> Vec<Op> {
     a
 }
 
+/// C19: the real program for a call graph of the protocol model (`pexplore::systems`): every
+/// query is a fixpoint function that joins the results of its callees with one bit of its own.
+pub fn model_graph(name: &str, calls: &[Vec<u8>]) -> Program {
+    let nodes = calls
+        .iter()
+        .enumerate()
+        .map(|(q, cs)| {
+            let mut e = k(1 << (q % 3));
+            for c in cs.iter().rev() {
+                e = Ex::or(call(*c), e);
+            }
+            NodeDef::new(Kind::Fx, e)
+        })
+        .collect();
+    Program { name: format!("mg-{name}"), cells: vec![(0, Dur::Low), (0, Dur::Low)], nodes, ext: vec![0], root0: None }
+}
+
 /// C20: a fixpoint head that calls its partner only while a LOW flag is set; the partner's own
 /// inputs are HIGH, so a provisional memo of it abandoned by a cancellation passes shallow
 /// verification in the next revision.
